@@ -14,7 +14,15 @@ HOSTILE_QUERIES = ['__import__', 'eval', 'exec', 'open', 'print', '__builtins__'
 def place_hostile(rnd, g):
     """a clause with a hostile quoted atom in a chosen syntactic position"""
     h = rnd.choice(cgen.QUOTED_ATOMS)
-    pos = rnd.choice(['fact-arg', 'head-name', 'goal-name', 'functor-name', 'list-item', 'goal-arg', 'op-arg', 'var-name'])
+    pos = rnd.choice(['fact-arg', 'head-name', 'goal-name', 'functor-name', 'list-item', 'goal-arg', 'op-arg', 'var-name', 'reserved-goal'])
+    if pos == 'reserved-goal':
+        # the compiler's internal goal name, at every arity, with the hostile atom where a label would be
+        args = [('A', h)] + [rnd.choice([('A', 'x'), ('V', 'X'), ('A', h)]) for _ in range(rnd.randint(0, 2))]
+        if rnd.random() < 0.15:
+            args = []
+        goal = ('call', '$CUTIF', args)
+        body = rnd.choice([goal, ('conj', ('call', 'q', []), goal), ('disj', ('ite', ('call', 'q', []), goal), 'tru'), ('neg', goal)])
+        return ('p', [], body, True), pos, h
     if pos == 'fact-arg':
         c = ('p', [('A', h)], 'tru')
     elif pos == 'head-name':
